@@ -570,7 +570,76 @@ impl<'a> WireCtx<'a> {
 
     /// classifier-guided inputs beyond the table: all 256 values of the leading byte of every
     /// group field, single-byte substitutions at every offset, random strings, bit flips
+    /// The key-pair API (PublicKey / PrivateKey / KeyPair constructors from byte slices) is part
+    /// of C12 as well: every length 0..len+8 with several fillings, the valid key truncated and
+    /// extended; oracle: exact length and valid by the reference predicate, never a panic.
+    pub fn fuzz_keys(&mut self) {
+        let l = self.lens;
+        let valid_pk = self.valid["RegistrationResponse"][l.noe..].to_vec();
+        let valid_sk = self.valid["ServerSetup"][l.nh..l.nh + l.nsk].to_vec();
+        for (dec, kind, valid) in [("KePublicKey", "kpk", valid_pk), ("KePrivateKey", "ksk", valid_sk)] {
+            let full = valid.len();
+            let mut inputs: Vec<Vec<u8>> = Vec::new();
+            for n in 0..=full + 8 {
+                for fill in [0x00u8, 0x01, 0x02, 0x03, 0x04, 0x05, 0xff] {
+                    inputs.push(vec![fill; n]);
+                    let mut v = vec![0u8; n];
+                    if n > 0 {
+                        v[0] = fill;
+                    }
+                    inputs.push(v);
+                }
+                let mut v = valid.clone();
+                v.resize(n, 0);
+                inputs.push(v);
+            }
+            for b in inputs {
+                self.evals += 1;
+                let want = b.len() == full && self.field_valid(kind, &b);
+                let suite = self.suite;
+                let got = std::panic::catch_unwind(std::panic::AssertUnwindSafe(|| suite.decode(dec, &b)));
+                let info = json!({"source": "key-pair API", "len": b.len()});
+                match got {
+                    Err(_) => self.report_key(dec, "panic", "key constructor panicked".into(), &b, info),
+                    Ok(Ok(re)) => {
+                        self.accepted += 1;
+                        if !want && b.len() == full {
+                            self.report_key(dec, "accepts-invalid-element", "key constructor accepted an invalid encoding".into(), &b, info);
+                        } else if want && re != b {
+                            self.report_key(dec, "non-canonical", "accepted key does not re-encode to itself".into(), &b, info);
+                        }
+                        // (other lengths: the constructors of the NIST groups also take other SEC1 / short
+                        //  forms; no listed decoder reaches them with such lengths - an observation, not C10)
+                        if dec == "KePrivateKey" && b.len() == full {
+                            let _ = std::panic::catch_unwind(std::panic::AssertUnwindSafe(|| suite.ke_keypair_from_slice(&b)))
+                                .map_err(|_| self.report_key(dec, "panic", "KeyPair::from_private_key_slice panicked".into(), &b, json!({})));
+                        }
+                    }
+                    Ok(Err(_)) => {
+                        self.rejected += 1;
+                        if want {
+                            self.report_key(dec, "rejects-valid", "key constructor rejected a valid key".into(), &b, info);
+                        }
+                    }
+                }
+            }
+        }
+    }
+
+    fn report_key(&mut self, decoder: &str, kind: &str, detail: String, input: &[u8], extra: Value) {
+        for v in self.violations.iter_mut() {
+            if v["decoder"] == decoder && v["kind"] == kind {
+                let c = v["count"].as_u64().unwrap_or(1) + 1;
+                v["count"] = json!(c);
+                return;
+            }
+        }
+        self.violations.push(json!({"suite": self.suite.name(), "decoder": decoder, "kind": kind, "field": "key",
+            "detail": detail, "input": hex::encode(input), "info": extra, "count": 1}));
+    }
+
     pub fn fuzz(&mut self, seed: u64, per_decoder: usize) {
+        self.fuzz_keys();
         let mut rng = crate::record::Prng(seed ^ 0x5eed);
         for d in DECODERS {
             let valid = self.valid[d].clone();
